@@ -100,6 +100,19 @@ CLAIMED = {
         "newline, docstring trimming, imports) are exercised by the example programs only, not decided symbolically; the CLI's argument parsing and exit-code mapping above "
         "format_files, and `--diff` output text, are not covered.",
    ref="DESIGN.md section 0.7, C09"),
+ "C10": dict(
+   cat="model_checking", tech="enum-level symbolic execution of rustc MIR + SMT (z3): the decision part of Lexer::handle_indentation from a symbolic column and a symbolic stack of 1..=3 open levels",
+   text="Solver-based, bounded, ONE mechanism of the property (the first the anchors name: indent stack and pending dedents): the part of Lexer::handle_indentation that decides, from "
+        "the column of a logical line's first character and the stack of open indentation levels, which INDENT / DEDENT tokens, pending dedents and errors are produced is executed from "
+        "the MIR of incan_syntax with the column and the levels (0 < a < b) symbolic. z3 decides per path (L2) that the decision is the documented one - INDENT iff the column is right of "
+        "the innermost level, one DEDENT per open level right of the column, the inconsistent-indentation error iff the column is no remaining level - and for every pair of paths with "
+        "different outcomes (L1) that no two order-isomorphic states (column, levels) take them: block structure depends on relative indentation only, so a consistent re-indentation "
+        "(2 / 4 spaces, tabs as 4 columns) takes the same decision on every line. A deviation is confirmed natively before it is reported: one program in 11 layouts (2 / 3 / 8 spaces, "
+        "tabs, CRLF, trailing spaces, blank lines, comments, line breaks in brackets) must parse to the same span-free AST and an ill-indented program must be refused (`replay lexlayout`, dev and release).",
+   note="Kernel-only: the counting loop before the decision (space = 1, tab = 4 columns, CR skipped, blank and comment-only lines return early), the bracket-depth suppression of "
+        "NEWLINE / INDENT in lexer/mod.rs, end-of-file dedents and the parser's newline skipping inside literals are NOT covered - they iterate over the source text (Peekable<CharIndices>), "
+        "for which the MIR executor has no model, and under Kani one lexer run on 3 symbolic layout characters does not finish (20+ min, 6 GB). Stacks deeper than 3 levels are outside the bound.",
+   ref="DESIGN.md section 0.8, C10"),
  "C12": dict(
    cat="model_checking", tech="enum-level symbolic execution of rustc MIR + SMT (z3): generate_cargo_toml with the dependency HashMap as a symbolic map iterated in both directions",
    text="Solver-based, bounded, ONE mechanism of the property (the first the anchors name): the [dependencies] table of the generated Cargo.toml does not depend on HashMap "
@@ -267,7 +280,7 @@ for pid in sorted(CLAIMED):
             "thorough_cmd": f"./check {pid} --tier thorough",
             "evidence_file": f"/verif/evidence/{pid}.json",
             "replay_cmd_template": f"./check {pid} --replay {{path}}",
-            "engine": {"C04": "E2 mirsmt + E1 kani", "C05": "E1 kani + E2 mirsmt", "C06": "E2 mirsmt + E1 kani", "C01": "E2 mirsmt + E1 kani", "C07": "E2 mirsmt + E1 kani", "C13": "E1 kani + E2 mirsmt", "C11": "E1 kani + E2 mirsmt", "C14": "E1 kani + E2 mirsmt", "C17": "E2 mirsmt", "C03": "E2 mirsmt", "C08": "E2 mirsmt", "C09": "E2 mirsmt", "C12": "E2 mirsmt", "C15": "E2 mirsmt", "C16": "E2 mirsmt", "C02": "E2 mirsmt + E1 kani"}.get(pid, "E1 kani"),
+            "engine": {"C04": "E2 mirsmt + E1 kani", "C05": "E1 kani + E2 mirsmt", "C06": "E2 mirsmt + E1 kani", "C01": "E2 mirsmt + E1 kani", "C07": "E2 mirsmt + E1 kani", "C13": "E1 kani + E2 mirsmt", "C11": "E1 kani + E2 mirsmt", "C14": "E1 kani + E2 mirsmt", "C17": "E2 mirsmt", "C03": "E2 mirsmt", "C08": "E2 mirsmt", "C09": "E2 mirsmt", "C12": "E2 mirsmt", "C15": "E2 mirsmt", "C16": "E2 mirsmt", "C02": "E2 mirsmt + E1 kani", "C10": "E2 mirsmt"}.get(pid, "E1 kani"),
             "level_claimed": {"category": c["cat"], "text": c["text"], "design_ref": c["ref"]},
             "level_note": c["note"],
             "technique": c["tech"],
